@@ -628,12 +628,14 @@ class AnswerMonitor : public Monitor {
 // restart), lands where its waiter can find it, and is not referenced by the handler afterwards.
 class CompletionMonitor : public Monitor {
  public:
-  CompletionMonitor(VSink* s, World* world) : sink(s), w(world), inflight(world->sc.reqs.size(), 0), completions(world->sc.reqs.size(), 0) {}
+  CompletionMonitor(VSink* s, World* world, const char* pfx = "C04/") : sink(s), w(world), prefix(pfx), inflight(world->sc.reqs.size(), 0), completions(world->sc.reqs.size(), 0) {}
   VSink* sink;
   World* w;
+  std::string prefix;  // C02 uses the same oracle for its clause 'otherwise it completes with an error'
+
   std::vector<int> inflight, completions;
   bool failed = false;
-  void fail(const std::string& sig, const std::string& d) { if (!failed) sink->add("C04/" + sig, d); failed = true; }
+  void fail(const std::string& sig, const std::string& d) { if (!failed) sink->add(prefix + sig, d); failed = true; }
   std::string rq(int r) const { return "request #" + std::to_string(r) + " (" + ref::hex(w->sc.reqs[r].master) + ", " + (w->sc.reqs[r].kind == 2 ? "real PollRequest" : w->sc.reqs[r].kind == 1 ? "self-deleting" : "waited") + (w->sc.reqs[r].restarts ? ", restarting" : "") + ")"; }
   void onEnqueue(int r) override { inflight[r]++; }
   void onNotify(int r, int result, const Bytes&, bool restart) override {
